@@ -117,8 +117,8 @@ fn main() {
     let mut sum = Summary::default();
     sum.nontrivial_rule = "a case is one history (prefix, BEGIN, body with savepoint statements, liveness probe, COMMIT|ROLLBACK) with every statement's result and a full observation after every savepoint statement; distinct = distinct statement text; non-trivial = at least one ROLLBACK TO succeeded on a savepoint after whose creation some statement had changed rows".into();
     let mut log = CaseLog::new(&args);
-    let n_hist: u64 = if args.thorough { 10000 } else { 560 };
-    let nshards = 16usize;
+    let n_hist: u64 = if args.thorough { 6000 } else { 400 };
+    let nshards = std::cmp::max(16, (n_hist / 40) as usize);
     let mut shard_txt: Vec<Vec<String>> = vec![Vec::new(); nshards];
     for id in 0..n_hist {
         if let Some(only) = &args.only {
@@ -270,7 +270,9 @@ fn main() {
         for st in &body {
             let (op, recorded) = match st {
                 Step::Plain(o) => (o, false),
-                Step::Recorded(o) => (o, true),
+                // --unrecorded 1: run these as plain statements (used to evaluate a repaired engine
+                // whose executors record their own changes)
+                Step::Recorded(o) => (o, !args.extra.contains_key("unrecorded")),
             };
             exec_one(&mut db, &mut items, &mut stack, op, recorded, true, &mut finding, &mut nontrivial, &mut sum);
         }
@@ -287,6 +289,15 @@ fn main() {
         }
         let code = end.exec(&mut db);
         items.push(Item { op: end.clone(), code, snap: Some(observe(&mut db)) });
+        // probe: the transaction is over (SAVEPOINT must be refused)
+        let open_after_end = db.in_transaction();
+        let probe = Op::Savepoint(9);
+        let probe_code = probe.exec(&mut db);
+        items.push(Item { op: probe, code: probe_code, snap: None });
+        if finding.is_none() && (code != 0 || open_after_end || probe_code != -1) {
+            finding = Some(("transaction-left-open".into(), format!(
+                "{} returned {}; afterwards in_transaction() = {}, SAVEPOINT S9 returned {}", end.text(), code, open_after_end, probe_code)));
+        }
         sum.evaluations += 1;
         if let Some((cls, what)) = finding {
             sum.finding(&cls, id, what, case_of(&items));
@@ -315,6 +326,38 @@ fn main() {
         log.log(id, case_of(&items));
         shard_txt[(id as usize) % nshards].push(coq_history(id, &items));
         sum.model_cases += items.len() as u64;
+    }
+    // scripted scenario (oracle only, not in the shards): the un-padded CHAR value reaches the storage
+    // layer from plain SQL through INSERT ... SELECT between CHAR columns of different width
+    let scen_id: u64 = 1_000_000;
+    if args.only.as_ref().map(|o| o.contains(&scen_id)).unwrap_or(true) {
+        let mut db = vibesql_storage::Database::new();
+        let script = [
+            "CREATE TABLE S (ID INTEGER, C CHAR(2))",
+            "CREATE TABLE D (ID INTEGER, C CHAR(4))",
+            "INSERT INTO S VALUES (1, 'ab')",
+            "BEGIN",
+            "SAVEPOINT S1",
+            "INSERT INTO D SELECT * FROM S",
+            "ROLLBACK TO SAVEPOINT S1",
+        ];
+        let mut trace = Vec::new();
+        for sql in script {
+            let o = vh::sql::exec(&mut db, sql);
+            trace.push(json!([sql, o.tag()]));
+        }
+        let left = db.get_table("D").map(|t| t.row_count()).unwrap_or(0);
+        sum.evaluations += 1;
+        sum.count("scripted_scenarios");
+        if left != 0 || trace.last().map(|t| t[1] != "ok").unwrap_or(true) {
+            sum.finding(
+                "undo-normalised-insert",
+                scen_id,
+                format!("INSERT INTO D SELECT * FROM S (CHAR(2) into CHAR(4)) after SAVEPOINT S1; ROLLBACK TO SAVEPOINT S1 -> {:?}, {} row(s) left in D", trace.last(), left),
+                json!({"history": trace}),
+            );
+        }
+        log.log(scen_id, json!({"history": trace}));
     }
     if args.only.is_none() {
         for (k, hs) in shard_txt.iter().enumerate() {
